@@ -679,6 +679,19 @@ func c16r5(c *core.Ctx) {
 	}
 }
 
+// hasParamOf: f takes a value of the named type (by pointer) as a parameter.
+func hasParamOf(f *core.Func, typ string) bool {
+	if f.Sig == nil {
+		return false
+	}
+	for i := 0; i < f.Sig.Params().Len(); i++ {
+		if isPtrTo(f.Sig.Params().At(i).Type(), typ) {
+			return true
+		}
+	}
+	return false
+}
+
 // resetFuncOf returns the function through which the reset chain starting at World.Reset resets values of the given type.
 func resetFuncOf(c *core.Ctx, typ string) *core.Func {
 	m := c.M
@@ -697,7 +710,7 @@ func resetFuncOf(c *core.Ctx, typ string) *core.Func {
 		core.InspectNoLits(f.Body, func(n ast.Node) bool {
 			if call, ok := n.(*ast.CallExpr); ok {
 				if k, cal, _ := m.Callee(call); k == core.CallStatic && cal.Sig != nil && cal.Sig.Results().Len() == 0 {
-					if cal.Recv == typ && found == nil {
+					if found == nil && (cal.Recv == typ || hasParamOf(cal, typ)) {
 						found = cal
 					}
 					visit(cal, depth+1)
